@@ -54,6 +54,14 @@ type Report struct {
 // New creates a report for property id.
 func New(id, tier, level string) *Report {
 	seed, _ := strconv.Atoi(os.Getenv("VERIF_SEED"))
+	if level != "" {
+		// replay files of an earlier run of this check are stale
+		if old, _ := filepath.Glob(filepath.Join(Root, "replays", id+"-*.json")); len(old) > 0 {
+			for _, f := range old {
+				os.Remove(f)
+			}
+		}
+	}
 	return &Report{Property: id, Tier: tier, Seed: seed, Level: level, Start: time.Now(), viol: map[string]*Violation{}, Coverage: map[string]any{}}
 }
 
